@@ -23,11 +23,52 @@ UNITS = {
     'unitE': {'spec': 'unitE.vrs'},
     'unitJ': {'spec': 'unitJ.vrs', 'expanded': True},
     'unitN': {'spec': 'unitN.vrs'},
+    'unitH': {'spec': 'unitH.vrs'},
     'unitF': {'spec': 'unitF.vrs', 'expanded': True, 'threads': 8},
     'unitC': {'spec': 'unitC.vrs', 'expanded': True, 'threads': 16, 'timeout': 2400},
 }
 
 PROPS = {
+    'C11': {
+        'units': ['unitH', 'unitC'],
+        'obligations': ['H.map.', 'H.emit.', 'H.InstrLocId', 'C.emit.', 'C.ir.InstrLocId'],
+        'assumptions': ['A-deps', 'A-std', 'A-iter', 'A-arith', 'A-extract', 'A-verus'],
+        'rules': 'R1 R2 R3b (visit_instr prefix) R4 (loop bodies; loop-carried locals by value) R6 R10 (`&wasm[leb_len..]` ==> tail_from); panic mode: absent',
+        'claimed': [
+            'Emit::visit_instr prefix / start_instr_seq / end_instr_seq (unit C, real text): each visited instruction, and each `else` / `end`, is recorded with its InstrLocId at the encoder\'s current byte length BEFORE its opcode is written',
+            'collect_non_default_code_offsets body (real): a pair is shifted by the body\'s output offset and kept iff its location is not the default one -- inserted instructions appear in no pair',
+            'ModuleFunctions::emit, second loop body (real): a function\'s reported range is exactly [entry start, entry start + size-prefix length + body length), the next entry starts where it ends, and its pairs are shifted by entry start + size-prefix length',
+            'ModuleFunctions::emit, first loop body (real): the size-prefix length is the serialised length minus the body length and the section receives exactly the body bytes',
+        ],
+        'unclaimed': [
+            'the tail of ModuleFunctions::emit (sort of the ranges, code_section_start = first entry - LEB length of the function count; fixed by F7) and that wasm-encoder re-encodes the same size prefix: bounded stand-in only',
+            'LocalFunction::parse recording input offsets (on_instr_pos callback path): bounded stand-in only',
+        ],
+        'standins': [
+            {'fn': 'CodeTransform end to end', 'argv': ['offsets'],
+             'bound': '11 module shapes (1..130 functions, bodies on both sides of the 128-byte size-prefix boundary, block/if/else/br in every body) x {unchanged, instructions inserted at the front of every body, gc after deleting every second export}: code_section_start is where the code section payload starts, the sorted ranges equal the emitted entries, every pair points at the start of the same operator in input and output, no inserted instruction in any pair',
+             'why': 'iterator adapters, rayon map and wasm-encoder internals'},
+        ],
+    },
+    'C10': {
+        'units': ['unitH'],
+        'obligations': ['H.conv.', 'H.gen.'],
+        'assumptions': ['A-deps', 'A-std', 'A-arith', 'A-extract', 'A-verus'],
+        'rules': 'R1 R2 R6 R10 (`slice.binary_search_by_key(&k, |i| i.0)` ==> bs_* stubs with the std contract on a sorted table; the `&dyn Fn` comparator selection ==> bs_range over the two comparator closures, which are verified separately); panic mode: absent',
+        'claimed': [
+            'CodeAddressGenerator::find_address (whole real function): an address that is the start of an input instruction is always classified as that instruction; one byte before an instruction as its edge; otherwise the function whose input range contains it under the requested end preference, with the offset from that function\'s start, or the function\'s end; otherwise Unknown -- never a different instruction or function',
+            'the two range comparator closures (real): inclusive = (start, end], exclusive = [start, end)',
+            'CodeAddressConverter::find_address (whole real function): an instruction address maps to the output offset recorded for exactly that instruction id, an in-function offset / function end to that function\'s emitted range; an instruction or function with no output entry yields None (tombstoned by the caller) -- never a neighbouring entry',
+        ],
+        'unclaimed': [
+            'the gimli-driven conversion (debug/mod.rs, dwarf.rs, units.rs: line programs, DIE high_pc, rebasing by code_section_start) and the construction / sortedness of the tables (iterator adapters + sort_by_key): bounded stand-in only',
+        ],
+        'standins': [
+            {'fn': 'DWARF conversion end to end', 'argv': ['dwarf'],
+             'bound': 'synthesized DWARF v4 and v5 (v5 rows name file 0), one subprogram and one row per instruction of each of 5 functions that walrus reorders (one with a 2-byte size prefix, one with an unreachable tail that walrus drops), one sequence per function and one sequence spanning all functions, x {unchanged, gc removing a function in the middle, instructions inserted at the front of every body} x 3 size mixes (36 cases): every row lands on the start of the same operator of the same function, every subprogram range covers the same function and ends with it, rows and subprograms of removed code are dropped or point outside all emitted code',
+             'why': 'gimli read/write machinery is outside Verus'},
+        ],
+    },
     'C13': {
         'units': ['unitN'],
         'assumptions': ['A-deps', 'A-arena', 'A-std', 'A-iter', 'A-extract', 'A-verus'],
